@@ -15,4 +15,18 @@ void inst_all()
   inst<Shape::Hypercube<1>>(); inst<Shape::Hypercube<2>>(); inst<Shape::Hypercube<3>>();
   Cubature::Scalar::Rule<double,double> sr;
   Cubature::Scalar::DynamicFactory::create(sr, String("x"));
+  // copy-like operations of the rule classes (all members of the natively modelled classes)
+  Cubature::Scalar::Rule<double,double> sr2(std::move(sr)); Cubature::Scalar::Rule<double,double> sr3(sr2.clone()); sr2 = std::move(sr3);
+  const Cubature::Scalar::Rule<double,double>& csr = sr2; (void)csr.get_weight(0); (void)csr.get_coord(0); (void)csr.get_name(); (void)csr.get_num_points();
+}
+template<typename Shape_> void inst_rule_ops()
+{
+  typedef Cubature::Rule<Shape_, double, double, Tiny::Vector<double, Shape_::dimension>> R;
+  R r(1, String("x")); R r2(std::move(r)); R r3(r2.clone()); r2 = std::move(r3);
+  const R& cr = r2; (void)cr.get_weight(0); (void)cr.get_point(0); (void)cr.get_coord(0, 0); (void)r2.get_point(0); (void)cr.get_name(); (void)cr.get_num_points();
+}
+void inst_rule_ops_all()
+{
+  inst_rule_ops<Shape::Simplex<1>>(); inst_rule_ops<Shape::Simplex<2>>(); inst_rule_ops<Shape::Simplex<3>>();
+  inst_rule_ops<Shape::Hypercube<1>>(); inst_rule_ops<Shape::Hypercube<2>>(); inst_rule_ops<Shape::Hypercube<3>>();
 }
